@@ -30,7 +30,10 @@ Next == /\ l <= Len(Evs) /\ l' = l + 1 /\ UNCHANGED <<sc, t0>>
            IF Sweep
            THEN \* the timer is reloaded at every step with the frequency then in effect: the interval after a step is
                 \* 4*(2048-f) clocks = 2048-f machine cycles for the f seen right after that step
-                /\ (l > 1 => c - Evs[l - 1][1] = 2048 - Evs[l - 1][3])
+                \* (the frequency is logged at the end of the machine cycle of the step: when a sweep clock changed it
+                \* since the step before, it may have done so just after this step's reload, which then used the old one)
+                /\ (l > 1 => \/ c - Evs[l - 1][1] = 2048 - Evs[l - 1][3]
+                             \/ c - Evs[l - 1][1] = 2048 - (IF l > 2 THEN Evs[l - 2][3] ELSE R[2]))
                 /\ v = ((IF l = 1 THEN V0 ELSE Evs[l - 1][2]) + 1) % 8
                 /\ UNCHANGED x
            ELSE IF Kind = "noise"
